@@ -527,13 +527,26 @@ def install_writer_externals(interp):
 
 
 def _writer_world(model, ch, format_name="delimited", interp=None, world=None, cid=None, header=None):
-    holder = {"errors": {}, "ids": {}}
+    holder = {"errors": {}, "ids": {}, "forms": {}}
+
+    def identify(row):
+        """Which of the rows handed to write_row is this - the very object, or (fixed format) a copy with padded cells?"""
+        if id(row) in holder["ids"]:
+            return holder["ids"][id(row)], "as given"
+        for index, known in enumerate(holder.get("rows", [])):
+            if isinstance(row, (list, tuple)) and len(row) == len(known) and all(
+                    cell is original or getattr(cell, "padded_from", None) is original for cell, original in zip(row, known)):
+                padded = [getattr(cell, "padded_from", None) is not None for cell in row]
+                short = [getattr(original, "short", False) for original in known]
+                return index, "padded to the field widths" if padded == short else "partly padded"
+        return "?", None
 
     @stub
     def validate_row_stub(interp_, args, kwargs):
         validator, row = args
         outcome = ch.choose(("validate_row", len(interp_.events)), ["ok", "DataError"])
-        row_id = holder["ids"].get(id(row), "?")
+        row_id, form = identify(row)
+        holder["forms"][row_id] = form
         interp_.event("validate_row", row_id, outcome)
         if outcome == "DataError":
             error = interp_.make_exception("cutplace.errors.FieldValueError", Opaque("str", True, ["<bad row>"]), None)
@@ -758,6 +771,7 @@ def writer_run(model, ch, format_name="delimited"):
         else:
             rows.append(run["world"].row(index, 2))
     run["holder"]["ids"] = {id(row): index for index, row in enumerate(rows)}
+    run["holder"]["rows"] = rows
     outcomes = []
     writer = None
     try:
@@ -843,6 +857,12 @@ def writer_oracle(run, aspects):
                     rejected = True
                     if run["outcomes"][index] is not run["holder"]["errors"].get(index):
                         raise Mismatch("rejected row %d did not raise its validation error" % index)
+                if "padding" in aspects and fixed and any(cell.short for cell in run["rows"][index]) \
+                        and run["holder"]["forms"].get(index) != "padded to the field widths":
+                    # what is validated (fields, allowed characters, IsUnique / DistinctCount) must be what is written and
+                    # later read back: 'ab' and 'ab ' are the same fixed-width value
+                    raise Mismatch("fixed format: row %d is validated %s, but written padded to the field widths - the checks judge "
+                                   "other values than a reader of the output sees" % (index, run["holder"]["forms"].get(index)))
             if not rejected:
                 if fixed:
                     _expect_fixed_emit(cursor, run["rows"][index], run["line_delimiter"] if "delimiter" in aspects else run["line_delimiter"], index)
@@ -892,6 +912,27 @@ def writer_oracle(run, aspects):
         return str(mismatch)
 
 
+def fixed_writer_padding_table(ctx, rule):
+    """What a fixed-width writer validates (fields, allowed characters, IsUnique / DistinctCount) is what it writes and what
+    a reader of the output sees: the row padded to the field widths ('ab' and 'ab ' are the same fixed-width value)."""
+    from ..tablekit import decide_kinds
+
+    def cell(ch):
+        run = writer_run(ctx.model, ch, "fixed")
+        interp = run["interp"]
+        forms = run["holder"]["forms"]
+        problems = [index for index, row in enumerate(run["rows"])
+                    if index in forms and any(cell_.short for cell_ in row) and forms[index] != "padded to the field widths"]
+        key = "rows=%d cells=%s" % (run["n_rows"], "/".join("".join("s" if c.short else "=" for c in row) for row in run["rows"]))
+        if problems:
+            return (key, "fixed writer validates the row as given but writes it padded to the field widths",
+                    "row %d validated %s" % (problems[0], forms[problems[0]]))
+        return (key, None, None)
+
+    ctx.res.minimum(rule, 1)
+    return decide_kinds(ctx, rule, "Writer(fixed): validated values are the written values", WRITER + ".write_row", cell, min_cells=20)
+
+
 def writer_table(ctx, rule, aspects, format_name="delimited"):
     def cell(ch):
         run = writer_run(ctx.model, ch, format_name)
@@ -908,10 +949,14 @@ def writer_table(ctx, rule, aspects, format_name="delimited"):
 
 # =============================================================================== histories on one CID (C08)
 HISTORY_OPS = ["read+close", "read-abandon", "read-noclose", "reader-close-only", "write+close", "write-noclose", "writer-close-only",
-               "rows()", "validate()", "validate-limit-0", "read-limit-0+close", "validate_rows+close", "two-readers-created-then-read"]
+               "rows()", "validate()", "validate-limit-0", "read-limit-0+close", "validate_rows+close", "two-readers-created-then-read",
+               "writer created, another data set read, then written", "reader read, another data set read, then closed"]
 
 
-def history_run(model, ch, length):
+OVERLAPPING_OPS = ("writer created, another data set read, then written", "reader read, another data set read, then closed")
+
+
+def history_run(model, ch, length, overlapping=True):
     interp = Interp(model, ch)
     world = World(model, interp, ch)
     always_ok = (CHECK_OK,)
@@ -939,12 +984,34 @@ def history_run(model, ch, length):
         field.attrs["validated"] = validated
     ops = []
     for position in range(length):
-        ops.append(ch.choose(("op", position), HISTORY_OPS))
+        ops.append(ch.choose(("op", position), [op for op in HISTORY_OPS if overlapping or op not in OVERLAPPING_OPS]))
     for position, op in enumerate(ops):
         interp.event("run", position, op)
         try:
             stream = world.stream()
-            if op == "two-readers-created-then-read":
+            if op == "writer created, another data set read, then written":
+                # runs whose lifetimes overlap: the writer exists (and has reset the checks) before the other run starts
+                target = Obj("io.StringIO", {"name": "<target>", "write": stub(lambda i, a, k: None), "close": stub(lambda i, a, k: None)},
+                             label="target")
+                writer = _construct(interp, WRITER, [cid, target])
+                other = _construct(interp, READER, [cid, world.stream("other")])
+                for _ in interp.iterate(interp.call_function(model.func(READER + ".rows"), [other], {}, None)):
+                    pass
+                interp.call(interp.getattr(other, "close"), [], {})
+                interp.event("run", position, op + " (the write)")
+                interp.call_function(model.func(WRITER + ".write_row"), [writer, world.row(0, 2)], {}, None)
+                interp.call(interp.getattr(writer, "close"), [], {})
+            elif op == "reader read, another data set read, then closed":
+                first = _construct(interp, READER, [cid, world.stream("first")])
+                for _ in interp.iterate(interp.call_function(model.func(READER + ".rows"), [first], {}, None)):
+                    pass
+                other = _construct(interp, READER, [cid, world.stream("other")])
+                for _ in interp.iterate(interp.call_function(model.func(READER + ".rows"), [other], {}, None)):
+                    pass
+                interp.call(interp.getattr(other, "close"), [], {})
+                interp.event("run", position, op + " (the late close)")
+                interp.call(interp.getattr(first, "close"), [], {})
+            elif op == "two-readers-created-then-read":
                 # both readers exist before the first data set is read; each pass must still start with fresh checks
                 readers = [_construct(interp, READER, [cid, world.stream("stream%d" % index)]) for index in range(2)]
                 for index, reader in enumerate(readers):
@@ -1013,18 +1080,19 @@ def history_oracle(run):
     return problems
 
 
-def history_table(ctx, rule, length):
+def history_table(ctx, rule, length, overlapping=True):
+    """``overlapping``: also runs whose lifetimes overlap (a writer created before, a reader closed after another run)."""
     from ..absint import explore
     from ..tablekit import where_of
 
     histories = 0
     kinds = {}
-    for chooser, run in explore(lambda ch: history_run(ctx.model, ch, length)):
+    for chooser, run in explore(lambda ch: history_run(ctx.model, ch, length, overlapping)):
         histories += 1
         for kind, text in history_oracle(run):
             kinds.setdefault(kind, text)
     what = "histories of %d operation(s) on one CID reset every check before use" % length
-    if histories < len(HISTORY_OPS):
+    if histories < len(HISTORY_OPS) - len(OVERLAPPING_OPS):
         raise AnalysisError("history table explored only %d histories" % histories)
     if not kinds:
         ctx.res.ok(rule, what, True, {"histories": histories, "operations": HISTORY_OPS}, cells=histories)
